@@ -2,6 +2,7 @@
 package codex
 
 import (
+	"bytes"
 	"encoding/binary"
 	"errors"
 	"fmt"
@@ -291,25 +292,49 @@ func (m *execInitMsg) ToBytes() []byte {
 	return r
 }
 
+// readLenPrefixed reads a 32-bit big-endian length followed by that many
+// bytes. The length comes from the peer: memory is only allocated for bytes
+// that have actually arrived, never for the announced length up front.
+func readLenPrefixed(r io.Reader) (string, error) {
+	l := make([]byte, 4)
+	if _, err := io.ReadFull(r, l); err != nil {
+		return "", err
+	}
+	n := int64(binary.BigEndian.Uint32(l))
+	var buf bytes.Buffer
+	if copied, err := io.CopyN(&buf, r, n); err != nil {
+		if err == io.EOF && copied < n {
+			err = io.ErrUnexpectedEOF
+		}
+		return "", err
+	}
+	return buf.String(), nil
+}
+
 // GetCmd reads execInitMsg from an EXEC_CHANNEL and returns the cmd to run
 func GetCmd(c net.Conn) (string, string, bool, *pty.Winsize, error) {
-	//TODO (drebelsky): consider handling io errors
 	t := make([]byte, 1)
-	io.ReadFull(c, t)
+	if _, err := io.ReadFull(c, t); err != nil {
+		return "", "", false, nil, err
+	}
 	usePty := (t[0] & usePtyFlag) != 0
 	hasSize := (t[0] & hasSizeFlag) != 0
-	l := make([]byte, 4)
-	io.ReadFull(c, l)
-	buf := make([]byte, binary.BigEndian.Uint32(l))
-	io.ReadFull(c, buf)
-	io.ReadFull(c, l)
-	term := make([]byte, binary.BigEndian.Uint32(l))
-	io.ReadFull(c, term)
+	cmd, err := readLenPrefixed(c)
+	if err != nil {
+		return "", "", usePty, nil, err
+	}
+	term, err := readLenPrefixed(c)
+	if err != nil {
+		return "", "", usePty, nil, err
+	}
 	var size *pty.Winsize
 	if hasSize {
-		size, _ = readSize(c)
+		size, err = readSize(c)
+		if err != nil {
+			return "", "", usePty, nil, err
+		}
 	}
-	return string(buf), string(term), usePty, size, nil
+	return cmd, term, usePty, size, nil
 }
 
 func readSize(r io.Reader) (*pty.Winsize, error) {
